@@ -200,6 +200,24 @@ func matchNameConstraint(domain, constraint string) bool {
 	return isSubdomain != constraintHasLeadingDot
 }
 
+// dnsNameForConstraints returns the DNS name that name constraints apply to
+// when host is requested: host without the trailing dot. It returns false if
+// host is empty or an IP address (plain or in brackets), as VerifyHostname
+// reads it.
+func dnsNameForConstraints(host string) (string, bool) {
+	if len(host) == 0 {
+		return "", false
+	}
+	candidateIP := host
+	if len(host) >= 3 && host[0] == '[' && host[len(host)-1] == ']' {
+		candidateIP = host[1 : len(host)-1]
+	}
+	if net.ParseIP(candidateIP) != nil {
+		return "", false
+	}
+	return strings.TrimSuffix(host, "."), true
+}
+
 // isValid performs validity checks on the c.
 func (c *Certificate) isValid(certType int, currentChain []*Certificate, opts *VerifyOptions) error {
 	if len(currentChain) > 0 {
@@ -215,10 +233,13 @@ func (c *Certificate) isValid(certType int, currentChain []*Certificate, opts *V
 	if now.Before(c.NotBefore) || now.After(c.NotAfter) {
 		return CertificateInvalidError{c, Expired}
 	}
-	if len(c.PermittedDNSDomains) > 0 {
+	// A DNS name constraint restricts DNS names only: there is nothing to
+	// check when no name, or an IP address, was requested, and the trailing
+	// dot that VerifyHostname accepts is not part of the name.
+	if name, isDNS := dnsNameForConstraints(opts.DNSName); isDNS && len(c.PermittedDNSDomains) > 0 {
 		ok := false
 		for _, constraint := range c.PermittedDNSDomains {
-			ok = matchNameConstraint(opts.DNSName, constraint)
+			ok = matchNameConstraint(name, constraint)
 			if ok {
 				break
 			}
